@@ -85,7 +85,7 @@ ScanWend(s, p, depth) ==
               ELSE ScanWend(s, <<q[1], q[2] + 1>>, depth)
 
 (* ---------------- machine state ---------------- *)
-TrapIds == 1..3
+TrapIds == 1..4          \* 1, 2: KEY(1), KEY(2); 3: PEN; 4: STRIG(0)
 NoTraps == [enabled |-> {}, stopped |-> [k \in TrapIds |-> FALSE],
             triggered |-> [k \in TrapIds |-> FALSE], gosub |-> [k \in TrapIds |-> 0]]
 
